@@ -235,7 +235,7 @@ func ruleC07CteMemo(c *Ctx) {
 			}
 			if e.Kind == "mapupdate" && norm(e.Args[1].String()) == regKey {
 				lastStore = e
-				if m := norm(e.Args[0].String()); m != regMap && p.Ret[1].Nil {
+				if m := norm(fieldOfLocalRecord(e.Args[0]).String()); m != regMap && p.Ret[1].Nil {
 					otherMap = m
 				}
 			}
@@ -1717,3 +1717,33 @@ func init() {
 
 // the registry copy is also what keeps the caller's document (C11) and the wrapped root (C17) free of CTE entries
 func init() { register("C11", ruleC07RegistryFresh); register("C17", ruleC07RegistryFresh) }
+
+// fieldOfLocalRecord: for the term of a field of a record allocated on the spot (`thunk := &T{data: m}` … thunk.data),
+// the term of the one value stored into that field; the term itself otherwise.
+func fieldOfLocalRecord(t *Term) *Term {
+	if t == nil || t.Op != "field" || len(t.Args) != 1 {
+		return t
+	}
+	al, ok := t.Args[0].V.(*ssa.Alloc)
+	if !ok || al.Referrers() == nil {
+		return t
+	}
+	var val ssa.Value
+	n := 0
+	for _, r := range *al.Referrers() {
+		fa, ok := r.(*ssa.FieldAddr)
+		if !ok || fieldName(fa.X.Type(), fa.Field) != t.Name || fa.Referrers() == nil {
+			continue
+		}
+		for _, u := range *fa.Referrers() {
+			if st, ok := u.(*ssa.Store); ok && st.Addr == ssa.Value(fa) {
+				n++
+				val = st.Val
+			}
+		}
+	}
+	if n != 1 {
+		return t
+	}
+	return NewTB().Of(val)
+}
